@@ -718,9 +718,16 @@ func main() {
 		e := new(big.Int).Mod(c.DigestInt(digest), c.N)
 		a := newAcc()
 		defer a.flush()
+		// R.x = x (so r = R.x) and R.x = n + x (the band [n, p): r = R.x mod n = x is what the equation
+		// demands, a verifier that compares R.x with r without reducing it rejects these valid signatures)
+		for _, band := range []*big.Int{new(big.Int), c.N} {
 		found := 0
 		for x := int64(1); found < 2; x++ {
-			ry, ok := c.DecompressY(big.NewInt(x), x%2 == 1)
+			rx := new(big.Int).Add(band, big.NewInt(x))
+			if rx.Cmp(c.P) >= 0 {
+				break
+			}
+			ry, ok := c.DecompressY(rx, x%2 == 1)
 			if !ok {
 				continue
 			}
@@ -728,7 +735,7 @@ func main() {
 			r := big.NewInt(x)
 			for _, sv := range []*big.Int{big.NewInt(1), big.NewInt(2), new(big.Int).Lsh(big.NewInt(3), 100), new(big.Int).Sub(two256m, c.N)} {
 				// Q = r^-1 (s R - e G)
-				tx, ty, inf := c.ScalarMult(r, ry, sv)
+				tx, ty, inf := c.ScalarMult(rx, ry, sv)
 				if e.Sign() != 0 {
 					gx, gy := c.ScalarBaseMult(new(big.Int).Sub(c.N, e))
 					if inf {
@@ -777,9 +784,10 @@ func main() {
 					if ferr != nil || fgot != cd.want {
 						run.Violation(fmt.Sprintf("sfc:%s:crafted-%s:%v-expected-%v", cs.name, cd.n, fgot, cd.want), fmt.Sprintf("SignatureFormatCheck=%v,%v on %s", fgot, ferr, cd.n), rp)
 					}
-					a.distinct = append(a.distinct, fmt.Sprintf("p4b/%s/%s/%d/%s/%s", cs.name, hs.name, x, sv.Text(16), cd.n))
+					a.distinct = append(a.distinct, fmt.Sprintf("p4b/%s/%s/%s/%s/%s", cs.name, hs.name, rx.Text(16), sv.Text(16), cd.n))
 				}
 			}
+		}
 		}
 	})
 	phase("4b crafted small r,s with recovered public keys")
